@@ -20,7 +20,7 @@ def run(c):
         if st["violated"]:
             c.spec_violation(st, "lexer specification vs its declarative statement")
             return
-        r = lc.replay(c, st, "c09-%s" % alpha)
+        r = lc.replay(c, st, "c09-%s" % alpha, sig=True)
         for m in r["first"]:
             c.violate("tokenize(%r) differs from the specification" % m["text"], {"kind": "replay-lex", "class": lc.classify(m), "text": m["text"], "want": m["want"], "got": m["got"]})
         last = st
@@ -28,7 +28,7 @@ def run(c):
     # direction B
     cnt, maxc = (400, 400) if c.quick else (8000, 2000)
     tr = os.path.join(vf.WORK, "lex", "c09-trace.ndjson")
-    vf.gv(["record-lex", c.seed, cnt, maxc, tr])
+    vf.gv(["record-lex", c.seed, cnt, maxc, tr, "sig"])
     tv = vf.validate_trace("Trace_Lexer", tr, "c09", chunk_events=60 if c.quick else 120, par=8)
     c.add_trace(tv, "Trace_Lexer")
     for rj in tv["rejects"]:
